@@ -125,3 +125,56 @@ def observable_registry(n: int, kind: int, dup: int, rem: int):
         want = 1 if i == rem else 2
         ensures("unwatch-all-silences-everyone", len(recorder_of(obs[i], kind).calls) == want)
     cover("reached-end", True)
+
+
+# ------------------------------------------------------------------ temperature items
+from geckolib.driver.accessor import GeckoStructAccessor, GeckoTempStructAccessor, GeckoEnumStructAccessor
+
+
+def word_at(b, i):
+    return byte_at(b, i) * 256 + byte_at(b, i + 1)
+
+
+@harness(prop="C03", target="geckolib.driver.accessor:GeckoTempStructAccessor._get_value",
+         name="temperature_item_notifies_iff_its_stored_reading_changed", timeout=120)
+def temperature_item_notifies_iff_its_stored_reading_changed(upos: int, tpos: int, old_block: bytes, offset: int, segment: bytes):
+    """temperatures: 'its stored reading' -- the unit item may change in the same update.
+    Float arithmetic is modelled as exact rationals HERE; that IEEE rounding never merges two distinct readings of one
+    unit is the separately proved lemma temperature_decoding_is_injective (below, Float64 theory)."""
+    exact_rational_floats(True)
+    requires(len(old_block) == 1024)
+    requires(both(0 <= upos, upos <= 1023, 0 <= tpos, tpos + 2 <= 1024))
+    requires(both(0 <= offset, offset + len(segment) <= 1024))
+    s = GeckoAsyncStructure(None, None)
+    s.set_status_block(old_block)
+    units = GeckoEnumStructAccessor(s, "TempUnits", upos, None, ["F", "C"], None, None, "ALL")
+    t = GeckoTempStructAccessor(s, "SetpointG", tpos, "ALL")
+    s.accessors = {"TempUnits": units, "SetpointG": t}
+    rec = Recorder(s)
+    t.watch(rec)
+    s.replace_status_block_segment(offset, segment)
+    new_block = splice(old_block, offset, segment)
+    if word_at(old_block, tpos) != word_at(new_block, tpos):
+        ensures("changed-reading-notifies-exactly-once", len(rec.calls) == 1)
+        ensures("observer-already-reads-the-new-block", both(rec.calls[0][0] is t, rec.calls[0][3] == new_block))
+    else:
+        ensures("unchanged-reading-stays-silent-even-if-the-unit-changed", len(rec.calls) == 0)
+    cover("unit-flips-in-the-same-update", both(byte_at(old_block, upos) == 0, byte_at(new_block, upos) == 1,
+                                                 word_at(old_block, tpos) == word_at(new_block, tpos)))
+
+
+@harness(prop="C03", cases="c14_units", target="geckolib.driver.accessor:GeckoTempStructAccessor._get_value",
+         uses=["raw_word_contract"], name="temperature_decoding_is_injective", timeout=600)
+def temperature_decoding_is_injective(unit, raw1: u16, raw2: u16):
+    """IEEE lemma: two stored words read as equal temperatures only if they are the same word (per unit)"""
+    from contracts import c14_temp
+    s = c14_temp.TempStruct("C" if unit["celsius"] else "F")
+    a = GeckoTempStructAccessor(s, "SetpointG", 1, "ALL")
+    c14_temp.RAW[0] = raw1
+    v1 = a.value
+    c14_temp.RAW[0] = raw2
+    v2 = a.value
+    ensures("equal-readings-only-for-equal-words", (v1 == v2) == (raw1 == raw2))
+
+
+from contracts.c14_temp import raw_word_contract
